@@ -18,6 +18,7 @@ Model of the event-handler machinery of `swimos_agent` (C06).
 -/
 import SwimVerif.Model.Util
 import SwimVerif.Model.AssocList
+import SwimVerif.Generated.HandlerFlags
 
 namespace SwimVerif.Handlers
 
@@ -64,6 +65,17 @@ structure Mod where
 
 /-- `Modification::of` -/
 def Mod.of (id : Nat) : Mod := { item := id, dirty := true, trigger := true }
+
+/-- The `Modification` reported by `ValueLaneSet` / `MapLaneUpdate` / `MapLaneRemove` / `MapLaneClear::step`
+(flags regenerated from the sources: `Generated/HandlerFlags.lean`). -/
+def Mod.valueSet (id : Nat) : Mod :=
+  { item := id, dirty := Generated.valueSetDirty, trigger := Generated.valueSetTrigger }
+def Mod.mapUpdate (id : Nat) : Mod :=
+  { item := id, dirty := Generated.mapUpdateDirty, trigger := Generated.mapUpdateTrigger }
+def Mod.mapRemove (id : Nat) : Mod :=
+  { item := id, dirty := Generated.mapRemoveDirty, trigger := Generated.mapRemoveTrigger }
+def Mod.mapClear (id : Nat) : Mod :=
+  { item := id, dirty := Generated.mapClearDirty, trigger := Generated.mapClearTrigger }
 
 /-- `StepResult` (completion values are consumed by the defunctionalised closures). -/
 inductive Out
@@ -207,10 +219,10 @@ def step (st : St) : H → H × St × Out
   | .getLog l => (.snd (.emit (.got l (st.readV l))), st, .cont none)
   | .copy s d k =>
     (.snd (.fby (.emit (.wset d (st.readV s + k))) (.set d (st.readV s + k))), st, .cont none)
-  | .set l n => (.done, st.setV l n, .complete (some (Mod.of (vid l))))
-  | .mupd m k n => (.done, st.updM m k n, .complete (some (Mod.of (mid m))))
-  | .mrem m k => (.done, st.remM m k, .complete (some (Mod.of (mid m))))
-  | .mclr m => (.done, st.clrM m, .complete (some (Mod.of (mid m))))
+  | .set l n => (.done, st.setV l n, .complete (some (Mod.valueSet (vid l))))
+  | .mupd m k n => (.done, st.updM m k n, .complete (some (Mod.mapUpdate (mid m))))
+  | .mrem m k => (.done, st.remM m k, .complete (some (Mod.mapRemove (mid m))))
+  | .mclr m => (.done, st.clrM m, .complete (some (Mod.mapClear (mid m))))
   | .mgetLog m k => (.snd (.emit (.gotE m k (alGet (st.readM m) k))), st, .cont none)
   | .fby a b => wrapStep (fun x => .fby x b) (some (.snd b)) (step st a)
   | .athen a b => wrapStep (fun x => .athen x b) (some (.snd b)) (step st a)
@@ -303,6 +315,7 @@ def consequence (P : Prog) (id : Nat) (st : St) : St × Option (Except Err H) :=
        some (.ok (.fby (bracket (.enEvent id v.content) (getH P.onEvent id) (.exEvent id))
                       (bracket (.enSet id v.previous v.content) (getH P.onSet id) (.exSet id)))))
     | none => (st, none)
+  else if nv + nm ≤ id then (st, none)      -- `items.get(&item_id)` is `None`: not an item with lifecycle handlers
   else
     match st.maps[id - nv]? with
     | some x =>
